@@ -161,6 +161,8 @@ func kinds() []keyKind {
 		mk("TK-text-hook", "KKInt", reflect.TypeOf(TK(0)), func(r *vh.Rng) interface{} { return randInt64(r, 32) }),
 		mk("BK-binary-hook", "KKString", reflect.TypeOf(BK("")), func(r *vh.Rng) interface{} { return randKeyString(r) }),
 		mk("SFK-selfer-hook", "KKInt", reflect.TypeOf(SFK(0)), func(r *vh.Rng) interface{} { return randInt64(r, 16) }),
+		mk("float64-nan", "KKFloat", reflect.TypeOf(float64(0)), func(r *vh.Rng) interface{} { return floatPool[r.Intn(len(floatPool))] }),
+		mk("float32-nan", "KKFloat", reflect.TypeOf(float32(0)), func(r *vh.Rng) interface{} { return float64(float32(floatPool[r.Intn(len(floatPool))])) }),
 		mk("bool", "KKBool", reflect.TypeOf(false), func(r *vh.Rng) interface{} { return r.Bool() }),
 		{name: "time", kk: "KKTime", typ: reflect.TypeOf(time.Time{}), gen: func(r *vh.Rng) reflect.Value {
 			return reflect.ValueOf(time.Unix(int64(r.Intn(4000000000))-1000000000, int64(r.PickInt(0, 0, 1, 999999999, r.Intn(1000000000)))).UTC())
@@ -427,6 +429,14 @@ func mapsStream(r *vh.Rng, n, reps int, cv *vh.Cases, sum *vh.Summary, idBase in
 		want := r.PickInt(1, 2, 2, 3, 4, 5, 6, 8, 11, 12, 13, 16, 24)
 		seen := map[interface{}]bool{}
 		var keys []reflect.Value
+		hasNaN := strings.HasSuffix(kk.name, "-nan") && format != "json" // json has no NaN
+		if hasNaN {
+			// ONE NaN key next to ordinary keys: cmp.Compare puts it before everything else
+			keys = append(keys, reflect.ValueOf(math.NaN()).Convert(kk.typ))
+			if want < 3 {
+				want = 3 + r.Intn(6)
+			}
+		}
 		for tries := 0; len(keys) < want && tries < want*6; tries++ {
 			k := kk.gen(r)
 			ki := k.Interface()
@@ -579,10 +589,28 @@ func mapsStream(r *vh.Rng, n, reps int, cv *vh.Cases, sum *vh.Summary, idBase in
 			}
 		}
 		// emitted order vs model
+		if hasNaN {
+			// the canonical path fetches each value back with a map lookup, which cannot find a NaN key: the entry's
+			// value is replaced by the zero value (F08-4). The order of the other entries is still compared.
+			if !bytes.Contains(first, []byte(sentinel(0))) {
+				sum.FailC("maps", "nan-key-value-lost:"+kk.name, "Canonical writes the zero value instead of the value stored under a NaN key", cj)
+			}
+			first = append(append([]byte(nil), first...), []byte(sentinel(0))...) // stand-in so that the rest can be located
+			terms = terms[1:]
+		}
 		order, ok := emittedOrder(first, nk)
 		if !ok {
 			sum.FailC("maps", "sentinel", "cannot locate every value exactly once in the output", cj)
 			continue
+		}
+		if hasNaN {
+			o2 := order[:0:0]
+			for _, x := range order {
+				if x != 0 {
+					o2 = append(o2, x)
+				}
+			}
+			order = o2
 		}
 		if !symAffected { // the hook encodes each key with a fresh symbol table
 			cv.Add(fmt.Sprintf("mkcase %d %s [%s] %s", id, kk.kk, strings.Join(terms, "; "), coqIDs(order)))
@@ -591,7 +619,7 @@ func mapsStream(r *vh.Rng, n, reps int, cv *vh.Cases, sum *vh.Summary, idBase in
 		}
 		// Decode(canonical) == Decode(non-canonical)
 		m0 := buildMap(mt, keys, randPerm(r, nk)).Interface()
-		if plain, err := encBytes(hn, m0); err == nil {
+		if plain, err := encBytes(hn, m0); err == nil && !hasNaN { // a NaN key cannot be looked up: no map equality
 			d1 := reflect.New(mt)
 			d2 := reflect.New(mt)
 			e1 := codec.NewDecoderBytes(first, h).Decode(d1.Interface())
@@ -787,6 +815,116 @@ func structStream(r *vh.Rng, n, reps int, cv *vh.Cases, sum *vh.Summary, idBase 
 		if omit && nfixed == 0 {
 			sum.Dist["struct.no-declared-field-emitted"]++
 		}
+	}
+	return id
+}
+
+// ---- numerically keyed struct with missing fields ----
+
+type MFI struct {
+	_struct bool   `codec:",int"`
+	A       string `codec:"1"`
+	B       string `codec:"5"`
+	C       string `codec:"10"`
+	m       map[string]interface{}
+}
+
+func (x *MFI) CodecMissingField(field []byte, value interface{}) bool {
+	if x.m == nil {
+		x.m = map[string]interface{}{}
+	}
+	x.m[string(field)] = value
+	return true
+}
+func (x *MFI) CodecMissingFields() map[string]interface{} { return x.m }
+
+func structIntStream(r *vh.Rng, n, reps int, cv *vh.Cases, sum *vh.Summary, idBase int) int {
+	id := idBase
+	for it := 0; it < n; it++ {
+		format := vh.Formats[it%4] // binary formats: a json object key is a string
+		o := vh.RandEncOpts(r, format)
+		o["Canonical"] = true
+		delete(o, "IndefiniteLength")
+		delete(o, "StringToRaw")
+		delete(o, "StructToArray")
+		h := vh.NewHandle(format, o)
+		on := vh.Opts{}
+		for k, v := range o {
+			on[k] = v
+		}
+		on["Canonical"] = false
+		hn := vh.NewHandle(format, on)
+		nm := r.PickInt(1, 1, 2, 3, 5, 9)
+		names := []string{"1", "5", "10"}
+		seen := map[string]bool{"1": true, "5": true, "10": true}
+		for len(names) < 3+nm {
+			s := fmt.Sprint(r.PickInt(r.Intn(30), r.Intn(300), 100+r.Intn(3000)))
+			if seen[s] {
+				continue
+			}
+			seen[s] = true
+			names = append(names, s)
+		}
+		cj := map[string]interface{}{"format": format, "opts": o.String(), "names": names, "seed_index": it, "keytype": "int"}
+		build := func() *MFI {
+			m := map[string]interface{}{}
+			for _, i := range randPerm(r, nm) {
+				m[names[3+i]] = sentinel(3 + i)
+			}
+			return &MFI{A: sentinel(0), B: sentinel(1), C: sentinel(2), m: m}
+		}
+		var first []byte
+		ok := true
+		for q := 0; q < reps+4 && ok; q++ {
+			out, err := encBytes(h, build())
+			if err != nil {
+				cj["err"] = fmt.Sprint(err)
+				sum.FailC("structint", "encode-error:int-keyed-struct", "Canonical Encode of an int-keyed struct with missing fields failed", cj)
+				ok = false
+				break
+			}
+			if first == nil {
+				first = out
+			} else if !bytes.Equal(first, out) {
+				cj["first"], cj["got"] = vh.Hex(first), vh.Hex(out)
+				sum.FailC("structint", "canonical-nondeterministic:int-keyed-struct", "Canonical encodings of equal int-keyed structs with missing fields differ", cj)
+				break
+			}
+		}
+		if !ok {
+			continue
+		}
+		if order, found := emittedOrder(first, len(names)); found {
+			terms := make([]string, len(names))
+			for i, s := range names {
+				terms[i] = fmt.Sprintf("(KS %s, %d%%N)", vh.CoqBytes([]byte(s)), i)
+			}
+			cv.Add(fmt.Sprintf("mkcase %d KKString [%s] %s", id, strings.Join(terms, "; "), coqIDs(order)))
+			id++
+			sum.ModelCases++
+		} else {
+			sum.FailC("structint", "sentinel", "cannot locate every field value exactly once in the output", cj)
+		}
+		// canonical bytes decode like the non-canonical ones, back to the value
+		plain, err := encBytes(hn, build())
+		var b1, b2 MFI
+		e1 := codec.NewDecoderBytes(first, h).Decode(&b1)
+		var e2 error = err
+		if err == nil {
+			e2 = codec.NewDecoderBytes(plain, hn).Decode(&b2)
+		}
+		switch {
+		case e1 != nil || e2 != nil:
+			cj["e1"], cj["e2"], cj["canonical"] = fmt.Sprint(e1), fmt.Sprint(e2), vh.Hex(first)
+			sum.FailC("structint", "decode:int-keyed-struct", "canonical / non-canonical bytes of an int-keyed struct with missing fields do not decode", cj)
+		case b1.A != b2.A || b1.B != b2.B || b1.C != b2.C || len(b1.m) != len(b2.m):
+			cj["canonical"], cj["plain"] = vh.Hex(first), vh.Hex(plain)
+			sum.FailC("structint", "decode-differs:int-keyed-struct", "Decode(canonical) differs from Decode(non-canonical) for an int-keyed struct with missing fields", cj)
+		case b1.A != sentinel(0) || b1.B != sentinel(1) || b1.C != sentinel(2) || len(b1.m) != nm:
+			cj["canonical"] = vh.Hex(first)
+			sum.FailC("structint", "roundtrip:int-keyed-struct", "canonical bytes of an int-keyed struct with missing fields do not decode to the encoded value", cj)
+		}
+		sum.Count("structint."+format, fmt.Sprintf("structint/%s/m%d", format, nm))
 	}
 	return id
 }
@@ -1022,10 +1160,11 @@ func main() {
 	cases := flag.String("cases", "/verif/build/c08/cases", "directory for the model case files")
 	flag.Parse()
 	r := vh.NewRng(vh.SeedFromEnv())
-	sum := vh.NewSummary("maps: 31 key kinds (interface{} keys mixing arrays/structs with scalars under json MapKeyAsString / simple EncZeroValuesAsNil, named int/string/int16 keys with Text / Binary / Selfer hooks, string, named string, intN, named int, uintN, uintptr, named uint, float32/64, named float, bool, time, time keys inside one second, time in several zones, struct, array, interface{} with distinct / with shared encodings, named fast-path map) x 5 formats x random options x sizes 1..24 x 3 insertion permutations x reps fresh Encoders x 4 goroutines x bytes/io (fresh io Encoder, the same Encoder after 1-3 Resets with WriterBufferSize 0/16/64/1024, twice in a row on one Encoder); distinct by (key kind, format, size, ties). struct: MissingFielder struct (declared fields always present / all omitempty with 0, 1, several or all present) x extra-field sets rebuilt in random order. nested: maps/lists to depth 3 rebuilt in random insertion orders. nstruct: map[struct]map[struct]string and map[struct][]byte with 20-60 byte keys, up to 12x12, identical bytes across rebuilds and DeepEqual after Decode")
+	sum := vh.NewSummary("maps: 33 key kinds (float64/float32 maps holding one NaN key, interface{} keys mixing arrays/structs with scalars under json MapKeyAsString / simple EncZeroValuesAsNil, named int/string/int16 keys with Text / Binary / Selfer hooks, string, named string, intN, named int, uintN, uintptr, named uint, float32/64, named float, bool, time, time keys inside one second, time in several zones, struct, array, interface{} with distinct / with shared encodings, named fast-path map) x 5 formats x random options x sizes 1..24 x 3 insertion permutations x reps fresh Encoders x 4 goroutines x bytes/io (fresh io Encoder, the same Encoder after 1-3 Resets with WriterBufferSize 0/16/64/1024, twice in a row on one Encoder); distinct by (key kind, format, size, ties). struct: MissingFielder struct (declared fields always present / all omitempty with 0, 1, several or all present) x extra-field sets rebuilt in random order. structint: a struct with integer keys and MissingFielder extras (canonical = non-canonical after Decode). nested: maps/lists to depth 3 rebuilt in random insertion orders. nstruct: map[struct]map[struct]string and map[struct][]byte with 20-60 byte keys, up to 12x12, identical bytes across rebuilds and DeepEqual after Decode")
 	cv := vh.NewCases(*cases, "From Coq Require Import List NArith ZArith.\nFrom Verif Require Import C08.Model C08.Corr.\nImport ListNotations.", "case", "mismatches", 60)
 	id := mapsStream(r.Fork(), *nMaps, *reps, cv, sum, 0)
-	structStream(r.Fork(), *nStruct, *reps, cv, sum, id)
+	id = structStream(r.Fork(), *nStruct, *reps, cv, sum, id)
+	structIntStream(r.Fork(), *nStruct/3+8, *reps, cv, sum, id)
 	nestedStream(r.Fork(), *nNested, *reps, sum)
 	nestedStructStream(r.Fork(), *nNStruct, *reps, sum)
 	cv.Close()
